@@ -138,12 +138,12 @@ CHECKS["C01"] = dict(
          "tie-breaks) picks are cell-disjoint, made of free cells, the loop terminates and no free cell is left; (die_complete) for a "
          "valid description (regions inside, interior-disjoint, positive, boundary coordinates separated by more than the tolerance) "
          "every accepted pick sequence makes the constructor return with an EXACT tiling — the full Hanan-grid argument; "
-         "(die_rejects_*) regions leaving the die or overlapping by more than eps_A are rejected. Tied to Die(text, netlist) on every run: "
+         "(die_rejects_*) regions leaving the die, overlapping by more than eps_A, or overlapping by at least the area-sum threshold "
+         "(die_rejects_small_overlap) are rejected. Tied to Die(text, netlist) on every run: "
          "exact (dyadic) and float (decimal) streams, the implementation's ground-region order fed to the model as the pick trace, and "
          "an exact-decimal validity oracle on the DOCUMENT (valid but rejected / invalid but accepted = violation).",
     note="Exact-arithmetic theorems; IEEE rounding executed and searched, not proved ('whatever its coordinates' is decided by search on "
-         "decimal documents); sqrt a parameter; YAML text->tree and netlist->fixed rectangles taken from the implementation; rejection of "
-         "overlaps below eps_A through the area sum is searched, not proved; two repairs committed first (inside tolerance, area tolerance).",
+         "decimal documents); sqrt a parameter; YAML text->tree and netlist->fixed rectangles taken from the implementation; two repairs committed first (inside tolerance, area tolerance).",
     technique="Lean 4 proof (relational greedy cover, Finset telescoping on the Hanan grid) + Rat/Float model correspondence + exact-decimal document oracle",
     design="§7 C01")
 
@@ -169,7 +169,9 @@ CHECKS["C14"] = dict(
          "where they were; hard modules are translated rigidly with centroid = assigned centre; masses, flags, shapes, nets unchanged; the "
          "result is exactly one trial's output (best-of-n). The model (with CPython's Neumaier sum()) is bit-exact with the Python on unit "
          "operations, whole spectral_layout_die runs with captured draws (iteration counts equal) and whole spectral_layout runs.",
-    note="Theorems are conditional on the run returning (orthogonality assert / divisions searched on admissible inputs: none failed); "
+    note="Theorems are conditional on the run returning; the search found one admissible family on which it does NOT return (all "
+         "movable modules hanging on one fixed node: AssertionError in orthogonalize) — open finding C14-orthogonality-assert, announced "
+         "by the check and attributed only inside that region; "
          "float margin 1e-9*size; radius = sqrt(area/pi) with sqrt uninterpreted >= 0; movable terminals outside the quantifier; "
          "convergence not needed and not claimed.",
     technique="Lean 4 post-condition chain for all draw lists + bit-level Float model correspondence with captured RNG draws + clause evaluation over seeds x trials",
